@@ -265,8 +265,18 @@ impl Bytes {
     pub fn from_slice(_e: &Env, s: &[u8]) -> Self {
         Bytes { id: content_id(s) }
     }
+    /// Content of the byte string.  For an *abstract* byte string the content is unknown: an empty
+    /// vector is handed out and the identity is parked in `shim::ABSTRACT_CONTENT_TAKEN`; only a
+    /// contract stub (which speaks about the identity, not the content) may consume it — a harness
+    /// ends with `shim::no_dangling_abstract_content()`, so real code inspecting such a vector is
+    /// flagged instead of silently seeing "empty".
     pub fn to_alloc_vec(&self) -> std::vec::Vec<u8> {
-        content_of(self.id)
+        if has_content(self.id) {
+            content_of(self.id)
+        } else {
+            unsafe { ABSTRACT_CONTENT_TAKEN = Some(self.id) };
+            std::vec::Vec::new()
+        }
     }
 }
 impl Wordy for Bytes {
